@@ -1285,7 +1285,8 @@ pub fn check<P: Property>(p: &P, tier: Tier) -> i32 {
             "schedule_free_runs": agg.schedule_free_runs,
             "batches": batches_json,
             "runs_per_hour": if wall_batches > 0.0 { (agg.evaluations as f64 / wall_batches * 3600.0) as u64 } else { 0 },
-            "seeds_per_hour_note": "one VERIF_SEED per invocation; every run derives its own case seed = mix(VERIF_SEED, property, batch, index)",
+            "case_seeds_per_hour": if wall_batches > 0.0 { (agg.evaluations as f64 / wall_batches * 3600.0) as u64 } else { 0 },
+            "seeds_per_hour_note": "one VERIF_SEED per invocation; every run derives its own case seed = mix(VERIF_SEED, property, batch, index), so case seeds per hour = runs per hour",
             "simulated_time": {"unit": "logical steps (no clock exists in the code under test)", "steps": steps},
             "fault_kinds_fired": faults,
             "probes": probes,
